@@ -242,6 +242,47 @@ def run(ctx):
                                   'must equal the answer over a list (%s)' % clean, 'lazy-result'))
             finally:
                 sys.unraisablehook = hook
+        # (c) the same policies in a real storage class, one stored entry made unreadable behind its back (a corrupted
+        #     value, a pickled rule whose module is gone, a row edited by hand): retrieval fails part-way, the answer is deny
+        if objs and rng.random() < 0.15 and all(p.get('stag', '<') == '<' and p.get('etag', '>') == '>' for p in case['policies']):
+            skind = pick(rng, ['redis-json', 'redis-pickle', 'mongo40', 'sqlite'])
+            try:
+                import stores
+                st_c = stores.make_base(skind)
+                for o in objs:
+                    st_c.add(copy.deepcopy(o))
+                vobj = pick(rng, objs)
+                victim = vobj.uid
+                # Redis hands every stored entry to the guard; SQL and an old MongoDB select by policy type for the regex
+                # checker: the unreadable entry is then necessarily part of what is retrieved (with a query that selects by
+                # the inquiry it may legitimately never be read)
+                if not skind.startswith('redis') and not (k == 'KR' and vobj.type == 1):
+                    raise LookupError('no claim for this combination')
+                if skind.startswith('redis'):
+                    h = st_c.client.h[st_c.collection]
+                    key = [k_ for k_ in h if k_ == (victim if isinstance(victim, bytes) else str(victim).encode())]
+                    h[key[0]] = pick(rng, [b'\x80\x04garbage', b'{"uid": ', b'not a policy'])      # IndexError: no such key
+                elif skind.startswith('mongo'):
+                    hit = [d_ for d_ in st_c.collection.docs if d_['_id'] == victim]
+                    hit[0]['actions'] = 5                                                            # IndexError: not found
+                else:
+                    from sqlalchemy import text
+                    res = st_c.session.execute(text("UPDATE vakt_policies SET context = '{not json' WHERE uid = :u"),
+                                               {'u': str(victim)})
+                    st_c.session.commit()
+                    if res.rowcount != 1:
+                        raise LookupError('row not found')
+                    st_c.session.expire_all()
+            except Exception:
+                st_c = None
+                out.count('corrupt-setup-failed')
+            if st_c is not None:
+                a = ask(st_c, polcase.make_checker(k), inq)
+                out.evaluations += 1
+                out.count('fault:unreadable-entry:' + skind)
+                if a is not False:
+                    fails.append(('one stored policy of the %s storage is unreadable (corrupted behind its back)' % skind, a,
+                                  'must be False', 'unreadable-entry'))
         # (a') the same faults with an inquiry that cannot be printed (a context value whose repr / str raise): whatever
         #      the failure path wants to log about the inquiry, the answer is still False and nothing escapes
         try:
